@@ -2,6 +2,7 @@ package harness
 
 import (
 	"context"
+	"errors"
 	"sync"
 	"time"
 
@@ -9,6 +10,8 @@ import (
 
 	bigbuff "github.com/joeycumines/go-bigbuff"
 )
+
+var errC05Cause = errors.New("c05: the cause given to the cancel function")
 
 func init() {
 	Register(Harness{Prop: "C05", Name: "C05/waitcond", Run: c05WaitCond})
@@ -39,7 +42,14 @@ func c05WaitCond() {
 	ws := make([]*waiter, nw)
 	for i := range ws {
 		w := &waiter{target: simrt.DrawRange(0, 4), willCancel: simrt.Chance(1, 3)}
-		w.ctx, w.cancel = context.WithCancel(context.Background())
+		if simrt.Chance(1, 4) {
+			// a context cancelled with a cause: WaitCond must still return the context's error
+			cctx, ccancel := context.WithCancelCause(context.Background())
+			w.ctx, w.cancel = cctx, func() { ccancel(errC05Cause) }
+			simrt.Probe("context_with_cause")
+		} else {
+			w.ctx, w.cancel = context.WithCancel(context.Background())
+		}
 		if simrt.Chance(1, 8) {
 			// already cancelled before the wait starts
 			w.cancelled = true
@@ -171,6 +181,10 @@ func c05Get() {
 	nGets := simrt.DrawRange(1, 5*simrt.Scale())
 	nPuts := simrt.DrawRange(0, 5*simrt.Scale())
 	closeBuf := simrt.Chance(1, 4)
+	diffAt := -1
+	if simrt.Chance(1, 3) {
+		diffAt = simrt.DrawRange(0, 6)
+	}
 	type get struct {
 		ctx        context.Context
 		cancel     context.CancelFunc
@@ -260,6 +274,16 @@ func c05Get() {
 			}()
 		}
 	}
+	differDone := true
+	if diffAt >= 0 {
+		differDone = false
+		go func() {
+			defer func() { differDone = true }()
+			time.Sleep(time.Duration(diffAt) * time.Microsecond)
+			simrt.Probe("diff_while_get_may_be_blocked")
+			b.Diff(c) // waits for a blocked Get of this consumer to finish, never longer
+		}()
+	}
 	if closeBuf {
 		go func() {
 			time.Sleep(time.Duration(simrt.DrawRange(0, 6)) * time.Microsecond)
@@ -306,4 +330,7 @@ func c05Get() {
 		_ = b.Close()
 	}
 	simrt.Quiesce(-1)
+	if !differDone && !simrt.Failed() {
+		simrt.Failf("C05.lost-wakeup", "a Diff on the consumer has not returned although every Get has returned and the buffer is closed")
+	}
 }
